@@ -8,11 +8,10 @@ use crate::haystack::val::{
     Str, Symbol, Time, Uri, Value as HVal, XStr,
 };
 
-use crate::haystack::timezone::make_date_time_with_tz;
+use crate::haystack::timezone::make_date_time_from_text;
 use crate::units::get_unit;
 use crate::val::GRID_FORMAT_VERSION;
 
-use chrono::{Offset, Utc};
 use serde::de::{Deserialize, Deserializer, Error, MapAccess, SeqAccess, Visitor};
 use std::fmt;
 
@@ -439,8 +438,10 @@ fn parse_datetime(dict: &Dict) -> Result<HVal, JsonErr> {
         Some(val) => match DateTime::parse_from_rfc3339(&val.value) {
             Ok(date) => match dict.get_str("tz") {
                 Some(tz) => {
-                    let datetime =
-                        make_date_time_with_tz(&date.with_timezone(&Utc.fix()), &tz.value);
+                    // The offset as it is written, for the timezones whose own offset has seconds.
+                    let datetime = chrono::DateTime::parse_from_rfc3339(&val.value)
+                        .map_err(|err| err.to_string())
+                        .and_then(|written| make_date_time_from_text(&written, &tz.value));
                     match datetime {
                         Ok(datetime) => Ok(HVal::DateTime(datetime.into())),
                         Err(err) => Err(JsonErr::custom(err)),
